@@ -8,6 +8,7 @@
 package batch
 
 import (
+	"bytes"
 	"context"
 	"errors"
 	"fmt"
@@ -378,6 +379,9 @@ func cloneSub(r types.Value, k types.String, v types.Value) (types.Value, bool) 
 			vv, _ = cloneSub(vv, k, v)
 			newSlice = append(newSlice, vv)
 		}
+		// the layout of a Set (and so its rendering) depends on the order in which members that
+		// collide in its hash table are inserted, and the iteration above is in random order
+		slices.SortFunc(newSlice, func(a, b types.Value) int { return bytes.Compare(a.MarshalCedar(), b.MarshalCedar()) })
 
 		return types.NewSet(newSlice...), true
 	}
